@@ -97,6 +97,24 @@ func (it *Interp) opRoundtrip(op *Op) {
 			alive = append(alive, h)
 		}
 	}
+	// "every handle": sweep the whole handle space of the dump (every ID of the pool, including the two reserved ones,
+	// with the stored generation, its neighbours and the extreme generations); handles are built through the codec
+	sweep := 0
+	for id := 0; id < len(snap.Entities); id++ {
+		g := snap.Entities[id].Gen()
+		for _, gen := range []uint32{0, 1, g - 1, g, g + 1, ^uint32(0)} {
+			h := mkHandle(uint32(id), gen)
+			want, wp := aliveOrPanic(b0.W, h)
+			for _, w := range []*Backend{b1, w2} {
+				got, gp := aliveOrPanic(w.W, h)
+				if got != want || gp != wp {
+					fail("roundtrip|alive-sweep|"+w.Name, "%s: Alive(%v)=%v (panic %v) after load, source world %v (panic %v)", w.Name, h, got, gp, want, wp)
+				}
+			}
+			sweep++
+		}
+	}
+	it.countN("roundtrip-handles-swept", sweep)
 	for _, w := range []*Backend{b1, w2} {
 		st := w.W.Stats()
 		if st.Entities.Used != len(alive) || st.Entities.Recycled != int(dump0.Available) {
@@ -168,4 +186,23 @@ func (it *Interp) opRoundtrip(op *Op) {
 	}
 	it.count("roundtrip")
 	it.done = true
+}
+
+// mkHandle builds an arbitrary handle through the binary codec (the only public way to do so).
+func mkHandle(id, gen uint32) ecs.Entity {
+	var e ecs.Entity
+	buf := []byte{byte(id >> 24), byte(id >> 16), byte(id >> 8), byte(id), byte(gen >> 24), byte(gen >> 16), byte(gen >> 8), byte(gen)}
+	if err := e.UnmarshalBinary(buf); err != nil {
+		panic(err)
+	}
+	return e
+}
+
+func aliveOrPanic(w *ecs.World, h ecs.Entity) (alive bool, panicked bool) {
+	defer func() {
+		if recover() != nil {
+			panicked = true
+		}
+	}()
+	return w.Alive(h), false
 }
